@@ -223,7 +223,7 @@ def configs(tier):
              inst(3, [w("inbadn")], "counter", scope="sXn"), inst(4, [w("inbadv")], "hist", scope="sXv"),
              inst(5, [w("inbada")], "updown", scope="sXa"), inst(6, [w("bar")], "hist", scope="sB")]
     add("illformed", [opts(s, **o) for s in SCHEMES for o in (dict(), dict(noScope=True))], templ, ases=iases, recas=(1, 2, 3),
-        vals=(2,), maxinst=2, maxrec=3 if th else 2, maxscr=2 if th else 1, scopes=[badscope("name"), badscope("version"), badscope("attr")],
+        vals=(2,), maxinst=2, maxrec=2, maxscr=2 if th else 1, scopes=[badscope("name"), badscope("version"), badscope("attr")],
         budget=None if th else 1500)
     # ---- values: what is exposed equals what the SDK aggregated, per kind
     vkinds = ["counter", "updown", "gauge", "hist", "exphist", "fcounter", "ocounter", "ogauge", "fhist", "oupdown"]
